@@ -197,3 +197,23 @@ PROPS["C19"] = {
     "thorough": [R("TestPropOrdered", 20000, shards=8, timeout=2400), R("TestPropOrdered", 20000, shards=4, timeout=2400, env={"GOMAXPROCS": 2}),
                  R("TestPropOrdered", 4000, shards=4, race=True, timeout=2400)],
 }
+
+PROPS["C01"] = {
+    "pkg": "c01", "level": "exploration",
+    "rule": ("rapid draws a table by construction: 0-3 blacklist entries, 0-3 rewriters (literal with max in {-1,0,1,2,5}, /regex/ with ${n} templates, "
+             "not-clauses), 0-3 aggregations (mocked clock, some drop-raw, cache on/off), 1-6 routes in order, each a capture route or a real "
+             "sendAllMatch / sendFirstMatch / consistentHashing route with 1-4 real destinations (refusing loopback address, spool off, so every "
+             "hand-off is counted in its conn_down_no_spool counter); every route and destination gets a six-option filter from the shared "
+             "generator; then 1-12 valid lines whose names are sampled from the table's own filters. Oracle: reference dispatcher written from "
+             "the statement (blacklist -> rewrite -> drop-raw consumption by complete filter -> routes in order on the rewritten name -> "
+             "all-match / first-match over destinations), compared in both directions with the exact line sequence each capture route "
+             "received, the per-destination counter deltas after a Flush barrier, and the blacklist / unroutable / in / invalid counter deltas. "
+             "Non-trivial: >=2 routes of which one matches and one does not, or a first-match route with >=2 matching destinations, or a "
+             "blacklist/drop-raw hit on a line a route would have matched. Distinct = hash(table, lines)."),
+    "level_text": "Reference-model property testing of the real Table with real routes and destinations; thousands of generated tables x lines; holds on all generated.",
+    "level_note": "kafkaMdm / pubsub / cloudWatch routes cannot be constructed offline (constructors need their services) and are outside the generated tables; grafanaNet is covered by C17. Consistent-hashing destination choice itself is C15's subject (here: exactly one destination).",
+    "technique": "property-based testing (rapid): reference dispatcher model vs capture routes and per-destination counters",
+    "assumptions": ["Go regexp is the RE2 reference", "names valid at the default validation level (printable ASCII, no tags)"],
+    "quick": [R("TestPropDispatch", 2500)],
+    "thorough": [R("TestPropDispatch", 20000, shards=16, timeout=2400)],
+}
